@@ -4,11 +4,20 @@
                                                              (n = number of bytes left unconsumed), then " defined" / " undefined"
      depth <parens|calls|index> <ctx> <n>                ->  "<depth> <0|1 too deep>"
      threshold <parens|calls|index> <ctx>                ->  "<least n that is too deep>"
+     family <gen.py family>   -> "<capture threshold|-> <backtrack threshold>"
+     outcome <family> <n>     -> parsed | deep | backtrack
+     diag <hex name> <line> <col> <hex msg> <hex source line> -> hex of the formatted diagnostic
+     budget                   -> capture_stack_worst ccall_stack_worst CSTACK_BUDGET
      ctx local <ndo> | ctx return                        ->  "<ctx depth>"   *)
 open Model
 open Zutil
 
 let zdec s = if String.length s > 0 && s.[0] = '-' then z_of_int (int_of_string s) else z_of_int (int_of_string s)
+let nfam = function
+  | "nested-parens" -> NParens | "nested-calls" -> NCalls | "nested-index" -> NIndex | "nested-tables" -> NTables
+  | "nested-unary-minus" | "nested-not" -> NUnary | "nested-pow" -> NPow | "nested-concat" -> NConcat
+  | "nested-do" -> NDo | "nested-if" -> NIf | "nested-while" -> NWhile | "nested-functions" -> NFunctions
+  | "nested-preprocess-expr" -> NPreprocess | s -> failwith ("nfam " ^ s)
 let fam = function "parens" -> FParens | "calls" -> FCalls | "index" -> FIndex | s -> failwith ("family " ^ s)
 let hex s = if s = "-" then [] else zlist_of_hexbytes s
 let unhex l = if l = [] then "-" else hexbytes_of_zlist l
@@ -36,6 +45,14 @@ let () =
           let d = depth (fam f) (zdec c) (zdec n) in
           Printf.sprintf "%d %d" (int_of_z d) (if too_deep d then 1 else 0)
         | [ "threshold"; f; c ] -> string_of_int (int_of_z (threshold (fam f) (zdec c)))
+        | [ "family"; f ] ->
+          (* capture threshold (or -), backtrack threshold *)
+          (match cap_threshold (nfam f) with Some t -> string_of_int (int_of_z t) | None -> "-")
+          ^ " " ^ string_of_int (int_of_z (bt_threshold (nfam f)))
+        | [ "outcome"; f; n ] ->
+          (match family_outcome (nfam f) (zdec n) with Parsed -> "parsed" | TooDeep -> "deep" | BacktrackOverflow -> "backtrack")
+        | [ "diag"; name; l; c; msg; src ] -> unhex (format_diag (hex name) (zdec l) (zdec c) (hex msg) (hex src))
+        | [ "budget" ] -> Printf.sprintf "%d %d %d" (int_of_z capture_stack_worst) (int_of_z ccall_stack_worst) (int_of_z cSTACK_BUDGET)
         | [ "ctx"; "local"; n ] -> string_of_int (int_of_z (ctx_local (zdec n)))
         | [ "ctx"; "return" ] -> string_of_int (int_of_z ctx_return)
         | [] -> ""
